@@ -50,10 +50,10 @@ def plan(pid, tier):
   kinds = F.ALL_KINDS
   if pid == "C31":
     kinds = F.RECORD_KINDS + ["AddColumn", "ModifyType", "Summary"]
-  INV_FIX = {"C09": (("views", "small"), ("summary", "small"), ("twoway", "small")),
-             "C10": (("twoway", "med"), ("basic", "med"), ("views", "small"), ("summary", "small")),
+  INV_FIX = {"C09": (("views", "small"), ("summary", "small"), ("twoway", "small"), ("cascade", "small")),
+             "C10": (("twoway", "med"), ("basic", "med"), ("views", "small"), ("summary", "small"), ("cascade", "small")),
              "C11": (("twoway", "full-nf"),),
-             "C12": (("summary", "med"), ("basic", "small"))}
+             "C12": (("summary", "med"), ("basic", "small"), ("cascade", "small"))}
   if pid in INV_FIX:
     fx0 = INV_FIX[pid][0][0]
     if tier == "quick":
@@ -73,8 +73,8 @@ def plan(pid, tier):
         shards.append((fx, "seq", k, 3, "micro", "micro", want, 2, 120.0, None))
     return shards
   if tier == "quick":
-    for fx, size in (("basic", "med"), ("trigger", "small"), ("types", "small"), ("summary", "small"),
-                     ("twoway", "small"), ("lookup", "small")):
+    for fx, size in (("basic", "med"), ("trigger2", "small"), ("types", "small"), ("summary", "small"),
+                     ("twoway", "small"), ("lookup", "small"), ("cascade", "small")):
       for k in kinds:
         shards.append((fx, "one", k, 1, size, size, want, 0, None, None))
     pairs = []
@@ -82,9 +82,18 @@ def plan(pid, tier):
     for k in kinds:
       for k2 in second:
         pairs.append(("basic", "one", k + "+" + k2, 2, "micro", "micro", want, 0, 20.0, None))
+    if pid == "C08":
+      # every schema-affecting first action followed by an action that always raises: the rollback must restore the schema
+      for fx in ("basic", "twoway", "summary", "cascade"):
+        for k in F.SCHEMA_KINDS:
+          shards.append((fx, "one", k + "+Fail", 2, "small", "micro", want, 0, 30.0, None))
     shards = pairs + shards
   else:
-    fixtures = ["basic", "types", "twoway", "summary", "trigger", "views", "lookup", "cycles"]
+    if pid == "C08":
+      for fx in ("basic", "twoway", "summary", "cascade", "types", "views", "lookup"):
+        for k in F.ALL_KINDS:
+          shards.append((fx, "one", k + "+Fail", 2, "full", "micro", want, 0, None, None))
+    fixtures = ["basic", "types", "twoway", "summary", "trigger", "trigger2", "views", "lookup", "cycles", "cascade"]
     for fx in fixtures:
       for k in F.ALL_KINDS:
         shards.append((fx, "one", k, 1, "full", "full", want, 0, None, None))
